@@ -638,6 +638,17 @@ func (oracleC18) Step(x *OCtx, t *Trans) []Violation {
 			}
 		}
 	}
+	if kind == "E" {
+		var newIDs []string
+		for _, id := range t.Post.ReqIDs {
+			if _, had := t.Pre.Reqs[id]; !had && len(id) == 2*st.RequestIDLen {
+				newIDs = append(newIDs, id)
+			}
+		}
+		if len(newIDs) > 0 && t.Res.Panic == "" {
+			out = append(out, clientRecovery(x, t, newIDs)...)
+		}
+	}
 	for _, id := range t.Post.ReqIDs {
 		if _, had := t.Pre.Reqs[id]; had {
 			continue
@@ -660,9 +671,10 @@ func (oracleC18) Step(x *OCtx, t *Trans) []Violation {
 		if kind == "E" && h != t.Pre.H {
 			add("request-id-records-context-batch-height", "height", fmt.Sprintf("request issued at height %d carries height %d in its ID", t.Pre.H, h))
 		}
-		if kind != "E" {
+		if kind != "E" && kind != "call" {
 			continue
 		}
+		// (a call of a module service issues its request inside the message: the issue event is part of the message's events)
 		arr, ok := evByCtx[hexs(cid)]
 		if !ok {
 			add("request-found-at-its-position-in-the-issue-event", "no-event", "no issue event for context "+x.Sc.ctxName(hexs(cid))+" in the block that issued "+shortReq(id))
@@ -686,7 +698,7 @@ func (oracleC18) Step(x *OCtx, t *Trans) []Violation {
 		if fee != coinAmt(r.ServiceFee).String() {
 			add("request-found-at-its-position-in-the-issue-event", "other-fee", fmt.Sprintf("request %s has fee %s, element %d of the issue event says %s", shortReq(id), coinAmt(r.ServiceFee), ix, fee))
 		}
-		if c := t.Post.Ctxs[hexs(cid)]; c != nil {
+		if c := t.Post.Ctxs[hexs(cid)]; c != nil && kind == "E" {
 			if !provListed[id+"|"+c.ServiceName+"|"+sdk.AccAddress(r.Provider).String()] {
 				add("request-listed-in-its-provider-event", nameOf(r.Provider), "request "+shortReq(id)+" is not listed in the per-provider issue event of its provider")
 			}
